@@ -25,6 +25,10 @@ Proof. unfold new_meta, new_gid. cbn. auto. Qed.
 Lemma check_permission_admin m p u : us_admin u = true -> check_permission m p u = true.
 Proof. intros H. unfold check_permission. rewrite H. reflexivity. Qed.
 
+(* the sticky bit of a directory never refuses the administrator *)
+Lemma sticky_admin h d n u : us_admin u = true -> sticky_refuses h d n u = false.
+Proof. intros H. unfold sticky_refuses. rewrite H. cbn [negb]. rewrite andb_false_r. reflexivity. Qed.
+
 Lemma set_mode_ok_admin m u : us_admin u = true -> set_mode_ok m u = true.
 Proof. intros H. unfold set_mode_ok. rewrite H. apply orb_true_r. Qed.
 
